@@ -317,6 +317,12 @@ impl EmmyLuaAnalysis {
 
     /// 清理文件系统中不再存在的文件
     pub fn cleanup_nonexistent_files(&mut self) {
+        self.cleanup_nonexistent_files_except(&[]);
+    }
+
+    /// Like `cleanup_nonexistent_files`, but keeps `keep` (documents open in the editor may not
+    /// exist on disk yet). Returns the uris that were removed.
+    pub fn cleanup_nonexistent_files_except(&mut self, keep: &[Uri]) -> Vec<Uri> {
         let mut files_to_remove = Vec::new();
 
         // 获取所有当前在VFS中的文件
@@ -332,15 +338,17 @@ impl EmmyLuaAnalysis {
             }
             if let Some(path) = vfs.get_file_path(&file_id).filter(|path| !path.exists())
                 && let Some(uri) = file_path_to_uri(path)
+                && !keep.contains(&uri)
             {
                 files_to_remove.push(uri);
             }
         }
 
         // 移除不存在的文件
-        for uri in files_to_remove {
-            self.remove_file_by_uri(&uri);
+        for uri in &files_to_remove {
+            self.remove_file_by_uri(uri);
         }
+        files_to_remove
     }
 }
 
